@@ -155,6 +155,17 @@ var multiShapes = map[string][]c17.PkgText{
 	"ok-nested-table-comment-across-packages": {
 		{Path: "github.com/verif/app1", Files: []string{"IMPORT SCHEMA 'github.com/verif/pkg2';\nAPPLICATION app1( USE pkg2; );\nWORKSPACE W INHERITS pkg2.Base ( TABLE A INHERITS sys.CDoc ( r ref(pkg2.N) ) );\n"}},
 		{Path: "github.com/verif/pkg2", Files: []string{"ABSTRACT WORKSPACE Base ( TABLE B INHERITS sys.CDoc ( items TABLE N (x int32) WITH Comment='nested comment' ) );\n"}}},
+	// storage entities in STATE(...) of a command, a query, a projector and a job, the package named by its
+	// import alias / by the base name of its path while the application knows it under another name (seed c16-6)
+	"ok-storage-entities-by-alias-used-by-base-name": {
+		{Path: "github.com/verif/app1", Files: []string{"IMPORT SCHEMA 'github.com/verif/pkg2' AS p2;\nAPPLICATION app1( USE pkg2; );\nWORKSPACE W INHERITS p2.Base (\n  EXTENSION ENGINE BUILTIN (\n    COMMAND c1() STATE(sys.Record(p2.Tbl), sys.View(p2.Vw));\n    QUERY q1() STATE(sys.Record(p2.Tbl), sys.View(p2.Vw)) RETURNS void;\n    PROJECTOR pr AFTER EXECUTE ON c1 STATE(sys.Record(p2.Tbl), sys.View(p2.Vw));\n  );\n);\nALTER WORKSPACE sys.AppWorkspaceWS (\n  EXTENSION ENGINE BUILTIN ( JOB j1 '1 0 * * *' STATE(sys.Record(p2.JTbl)); );\n);\n"}},
+		{Path: "github.com/verif/pkg2", Files: []string{"ABSTRACT WORKSPACE Base (\n  TABLE Tbl INHERITS sys.CDoc (x int32);\n  VIEW Vw (a int32, b int32, c int32, PRIMARY KEY ((a), b)) AS RESULT OF Prj;\n  EXTENSION ENGINE BUILTIN (\n    COMMAND Cmd();\n    PROJECTOR Prj AFTER EXECUTE ON Cmd INTENTS(sys.View(Vw));\n  );\n);\nALTER WORKSPACE sys.AppWorkspaceWS (\n  TABLE JTbl INHERITS sys.CDoc (x int32);\n);\n"}}},
+	"ok-storage-entities-by-base-name-used-by-alias": {
+		{Path: "github.com/verif/app1", Files: []string{"IMPORT SCHEMA 'github.com/verif/pkg2' AS p2;\nAPPLICATION app1( USE p2; );\nWORKSPACE W INHERITS pkg2.Base (\n  EXTENSION ENGINE BUILTIN (\n    COMMAND c1() STATE(sys.Record(pkg2.Tbl), sys.View(pkg2.Vw));\n    QUERY q1() STATE(sys.Record(pkg2.Tbl), sys.View(pkg2.Vw)) RETURNS void;\n    PROJECTOR pr AFTER EXECUTE ON c1 STATE(sys.Record(pkg2.Tbl), sys.View(pkg2.Vw));\n  );\n);\nALTER WORKSPACE sys.AppWorkspaceWS (\n  EXTENSION ENGINE BUILTIN ( JOB j1 '1 0 * * *' STATE(sys.Record(pkg2.JTbl)); );\n);\n"}},
+		{Path: "github.com/verif/pkg2", Files: []string{"ABSTRACT WORKSPACE Base (\n  TABLE Tbl INHERITS sys.CDoc (x int32);\n  VIEW Vw (a int32, b int32, c int32, PRIMARY KEY ((a), b)) AS RESULT OF Prj;\n  EXTENSION ENGINE BUILTIN (\n    COMMAND Cmd();\n    PROJECTOR Prj AFTER EXECUTE ON Cmd INTENTS(sys.View(Vw));\n  );\n);\nALTER WORKSPACE sys.AppWorkspaceWS (\n  TABLE JTbl INHERITS sys.CDoc (x int32);\n);\n"}}},
+	"ok-storage-entities-plain": {
+		{Path: "github.com/verif/app1", Files: []string{"IMPORT SCHEMA 'github.com/verif/pkg2';\nAPPLICATION app1( USE pkg2; );\nWORKSPACE W INHERITS pkg2.Base (\n  EXTENSION ENGINE BUILTIN (\n    COMMAND c1() STATE(sys.Record(pkg2.Tbl), sys.View(pkg2.Vw));\n    QUERY q1() STATE(sys.Record(pkg2.Tbl), sys.View(pkg2.Vw)) RETURNS void;\n    PROJECTOR pr AFTER EXECUTE ON c1 STATE(sys.Record(pkg2.Tbl), sys.View(pkg2.Vw));\n  );\n);\nALTER WORKSPACE sys.AppWorkspaceWS (\n  EXTENSION ENGINE BUILTIN ( JOB j1 '1 0 * * *' STATE(sys.Record(pkg2.JTbl)); );\n);\n"}},
+		{Path: "github.com/verif/pkg2", Files: []string{"ABSTRACT WORKSPACE Base (\n  TABLE Tbl INHERITS sys.CDoc (x int32);\n  VIEW Vw (a int32, b int32, c int32, PRIMARY KEY ((a), b)) AS RESULT OF Prj;\n  EXTENSION ENGINE BUILTIN (\n    COMMAND Cmd();\n    PROJECTOR Prj AFTER EXECUTE ON Cmd INTENTS(sys.View(Vw));\n  );\n);\nALTER WORKSPACE sys.AppWorkspaceWS (\n  TABLE JTbl INHERITS sys.CDoc (x int32);\n);\n"}}},
 	// three packages alter one workspace; one TYPE is included by two tables that refer to each other through
 	// it - which package is built first decided between success and a false "circular reference" (C16-F5b)
 	"ok-field-set-shared-across-packages": {
